@@ -10,6 +10,15 @@ extra() {  # checks tried in addition to the seed's own property
     C20b) echo "C03 C04" ;;
     C20a) echo "" ;;
     C02a) echo "C03" ;;
+    C02d) echo "C03 C08" ;;
+    C03d) echo "C06" ;;
+    C10c) echo "C02" ;;
+    C12d) echo "C13 C14" ;;
+    C14d) echo "C13" ;;
+    C20c) echo "C13" ;;
+    C20d) echo "C18" ;;
+    C09c) echo "C02" ;;
+    C09d) echo "C08" ;;
     C04b) echo "C10" ;;
     C09b) echo "C08" ;;
     C08a) echo "C09" ;;
